@@ -16,13 +16,14 @@ TRUSTED_BASE = [
 
 def lean_step(prop, tier):
     """returns dict(ok, build_ok, audit, forbidden, log)"""
-    ok_build, log = common.lake_build()
+    names, imports = common.theorem_listing(prop)
+    ok_build, log = common.lake_build(['driver'] + imports)
     forbidden = common.grep_forbidden()
     audit = common.audit_axioms(prop) if ok_build else {"theorems": [], "ok": False, "log": "build failed"}
     res = dict(build_ok=ok_build, forbidden=forbidden, audit=audit, log=log[-3000:] if not ok_build else "")
     res['leanchecker'] = None
     if tier == 'thorough' and ok_build and audit['theorems']:
-        p = subprocess.run(["lake", "env", "leanchecker", f"CminxProps.{prop}"], cwd=common.LEAN_DIR, capture_output=True, text=True)
+        p = subprocess.run(["lake", "env", "leanchecker"] + imports, cwd=common.LEAN_DIR, capture_output=True, text=True)
         res['leanchecker'] = dict(rc=p.returncode, out=(p.stdout + p.stderr)[-1500:])
         if p.returncode != 0: res['leanchecker_failed'] = True
     res['ok'] = ok_build and not forbidden and audit['ok'] and not res.get('leanchecker_failed')
@@ -120,6 +121,7 @@ def run_check(prop, tier, seed, skip_lean=False):
     )
     if not thms:
         ev['coverage']['explanation'] = "no property theorem registered yet for this property; only the correspondence ran"
+        for k in ('obligations', 'discharged'): ev['coverage'].pop(k, None)
     common.write_json(os.path.join(common.EVIDENCE_DIR, f"{prop}.json"), ev)
     if verdict_line: print(verdict_line)
     print(f"{prop} {tier} seed={seed}: {out.evaluations} cases, {len(out.nontrivial)} distinct non-trivial, "
